@@ -91,6 +91,14 @@ Decorate ==
           g  == Decorated(st.es, st.m, p0, st.w, st.d)
       IN /\ Accepted(g)
          /\ st' = [k |-> "g", g |-> g, m |-> st.m, p0 |-> p0, name |-> st.name]
+\* a fixed "chain" change of basis for L >= 3: new_1 = c_2 - c_3, new_2 = c_1 - c_2, new_j = c_j - c_(j+1), new_L = c_L.
+\* On multi-loop graphs it produces loops that share no edge with each other but each share one with the loop
+\* listed first (exact zeros in L away from the first row, fill-in in its Cholesky factor).
+ChainA(L) == [k \in 1..L |-> [l \in 1..L |->
+                IF l = 1 THEN (IF k = 2 THEN 1 ELSE IF k = 3 THEN -1 ELSE 0)
+                ELSE IF l = 2 THEN (IF k = 1 THEN 1 ELSE IF k = 2 THEN -1 ELSE 0)
+                ELSE IF l = L THEN (IF k = L THEN 1 ELSE 0)
+                ELSE (IF k = l THEN 1 ELSE IF k = l + 1 THEN -1 ELSE 0)]]
 \* the routings are drawn into the state as well
 Route ==
    /\ st.k = "g"
@@ -98,7 +106,9 @@ Route ==
       st' = [k |-> "r", g |-> g, m |-> st.m, p0 |-> st.p0, name |-> st.name,
              rt |-> [r \in 1..NROUT |->
                       [T |-> IF r = 1 THEN CHOOSE T \in Trees(g) : TRUE ELSE RandomElement(Trees(g)),
-                       A |-> IF r = 1 \/ L > 3 THEN [i \in 1..L |-> [j \in 1..L |-> IF i = j THEN 1 ELSE 0]]
+                       A |-> IF r = 1 THEN [i \in 1..L |-> [j \in 1..L |-> IF i = j THEN 1 ELSE 0]]
+                             ELSE IF r = NROUT /\ L >= 3 THEN ChainA(L)
+                             ELSE IF L > 3 THEN [i \in 1..L |-> [j \in 1..L |-> IF i = j THEN 1 ELSE 0]]
                              ELSE RandomElement(GL(L)),
                        R |-> IF r = 1 THEN {} ELSE RandomElement(SUBSET Full(g)),
                        c |-> [l \in 1..L |-> [i \in 1..dd |-> IF r = 1 THEN 0 ELSE RandomElement(-1..1)]]]]]
